@@ -25,6 +25,13 @@ CLAIMED["C04"] = {
   "technique": "deterministic simulation of runs writing to real HDF5 storage; write/restart-load round trip checked against an observational digest taken at acknowledgement time",
 }
 
+CLAIMED["C05"] = {
+  "text": "Seeded search over the database as a key->value store on a real HDF5 file with writer/reader configuration skew: a writer process (seed-chosen extra flags in a seed-chosen order) performs 6-40 transactions, each assigning one per-object collection (27 value kinds x 6 None patterns x value seed, incl. numeric extremes, the encoder's own None markers, ragged/empty/nested/dict/flag values) to one untyped parameter of one object class and writing a snapshot through writeToDB or the direct _writeParams/_readParams path; a reader process with a permuted superset of the flags loads every accepted snapshot. Oracle: the statement's normalisations only (sequence<->array, empty ragged entry may be unset, NaN is unset for reals) or refusal at write time; a different value or a read-time error is the violation. Sampling, not proof.",
+  "design_ref": "DESIGN.md §3.5",
+  "note": "Trusted: the comparison code in worlds/c05.py, h5py. Collections are homogeneous in value kind (plus None). The reader's flag set is a permuted superset of the writer's.",
+  "technique": "deterministic simulation of a writer process and a configuration-skewed reader process over real HDF5 storage; per-value read-back against the written history",
+}
+
 NA = {
  "C07": "pure function of (grid, index): no event order, clock, I/O or fault to simulate; exhaustive enumeration over N rings is the right tool, not simulation (DESIGN.md §6)",
  "C08": "pure functions of (grid, cell, k) and of a block's contents; rotations appear only as workload in the simulated runs (DESIGN.md §6)",
